@@ -278,7 +278,7 @@ func modSqrtRule(P *Program, R *Report) {
 	fa := &ForAll{P: P, Spec: ForAllSpec{Coll: is("arg#1"), Body: func(_ *ssa.Function, l *Loop) *MustPass {
 		return &MustPass{Match: func(a Atom) bool {
 			// PrimeSqrt(a mod fac, fac) reported a root
-			if c, idx := callAndResult(a.V); c != nil && calleeName(c) == "common.PrimeSqrt" && idx == 1 && a.Want == True {
+			if c, idx := callAndResult(a.V); c != nil && calleeIs(c, "common.PrimeSqrt") && idx == 1 && a.Want == True {
 				ts := be.at(c)
 				d1 := desc(c.Call.Args[1])
 				return (d1 == "arg#1[#i]" || d1 == "arg#1[*]") && len(ts) >= 1 && ts[0].equal(termFn("Mod", tsym("arg#0"), tsym(d1)))
@@ -323,7 +323,7 @@ func modSqrtRule(P *Program, R *Report) {
 		if !isC {
 			continue
 		}
-		if calleeName(c) == "common.Crt" {
+		if calleeIs(c, "common.Crt") {
 			d3 := desc(call.Call.Args[3])
 			// Crt(res, n, locRes, fac): n is the running product object, fac this factor
 			if d3 == "arg#1[#i]" || d3 == "arg#1[*]" {
